@@ -291,6 +291,8 @@ def check_rollup(chk, ix, tier="quick", mutate=None):
                 chk.fail(Finding("R3", fname, wit + " -> " + (v.name if isinstance(v, EnumVal) else repr(v)), text,
                                  file=func.file, line=func.lineno, stmt="def compute_status", path=list(s.path),
                                  imprecise=bool(s.imprecise)))
+            if k == "val" and isinstance(v, Top):
+                raise AnalysisError("compute_status[as %s]: the result is a value the interpreter could not determine (%s)" % (kind, v.tag))
             if k != "val" or not isinstance(v, EnumVal):
                 if k == "raise" and n == 0:
                     continue
